@@ -26,16 +26,21 @@ def _is_counter(v):
     for x in web:
         for o in x.ops:
             o = _uncast(o)
-            if o.is_inst and o.op == "add" and o.ops[1].is_const and o.ops[1].sval > 0 and \
-                    any(_uncast(o.ops[0]) is w for w in web):
-                return True
+            steps = 0
+            # member + c1 + c2 + ...  (count++ several times per round)
+            while o.is_inst and o.op == "add" and o.ops[1].is_const and o.ops[1].sval > 0 and steps < 8:
+                o = _uncast(o.ops[0])
+                steps += 1
+                if any(o is w for w in web):
+                    return True
     return False
 
 
-def run_k6idx(chk, prog, rule="K6-index"):
+def run_k6idx(chk, prog, rule="K6-index", files=None):
     n = 0
     for f in prog.functions():
-        if not f.unit.src.startswith(SCOPE) or "/test/" in f.unit.src:
+        if "/test/" in f.unit.src or (files is None and not f.unit.src.startswith(SCOPE)) or \
+                (files is not None and f.unit.src not in files):
             continue
         for i in f.insts():
             if i.op != "store":
